@@ -85,7 +85,7 @@ def api_names():
                 PrivVal=rt.PrivVal, PubVal=rt.PubVal, ConstVal=rt.ConstVal, LinComb=rt.LinComb,
                 guarded=rt.guarded, PrivValBool=bo.PrivValBool, PubValBool=bo.PubValBool, LinCombBool=bo.LinCombBool,
                 PrivValFxp=fx.PrivValFxp, PubValFxp=fx.PubValFxp, LinCombFxp=fx.LinCombFxp,
-                if_then_else=br.if_then_else, Array=ar.Array, lin_comb=la.lin_comb,
+                if_then_else=br.if_then_else, Array=ar.Array, lin_comb=la.lin_comb, scalar_mul=la.scalar_mul, vector_sub=la.vector_sub,
                 BranchingValues=br.BranchingValues, _if=br._if, _elif=br._elif, _else=br._else, _endif=br._endif,
                 _while=br._while, _endwhile=br._endwhile, _breakif=br._breakif, _range=br._range, _endfor=br._endfor)
 
@@ -166,7 +166,9 @@ INT_T = [
     ("ne_ss", "b", "{i} != {i}"), ("ne_sc", "b", "{i} != {K}"), ("ne_cs", "b", "{K} != {i}"),
     ("check_zero", "b", "{i}.check_zero()"), ("check_nonzero", "b", "{i}.check_nonzero()"),
     ("check_positive", "b", "{i}.check_positive()"),
-    ("ite_i", "i", "if_then_else({b}, {i}, {i})"), ("ite_ic", "i", "if_then_else({b}, {i}, {K})"),
+    ("ite_i", "i", "if_then_else({b}, {i}, {i})"), ("ite_intcond", "i", "if_then_else({z}, {i}, {i}) + 0"),
+    ("ite_list", "i", "if_then_else({b}, [{i}, {i}], [{i}, {K}])[1] + 0"), ("linalg_sub", "i", "sum(vector_sub(scalar_mul({i}, [{i}, {K}]), [{i}, {i}]))"),
+    ("lin_comb", "i", "lin_comb([{i}, {K}, {b}], [{i}, {i}, {i}])"), ("ite_ic", "i", "if_then_else({b}, {i}, {K})"),
     ("ite_ci", "i", "if_then_else({b}, {K}, {i})"),
     ("if_else_b", "i", "{b}.if_else({i}, {i})"), ("if_else_i", "i", "LinCombBool({b} + 0).if_else({i}, {K})"),
     ("bits_rt", "i", "LinComb.from_bits({i}.to_bits())"),
@@ -180,7 +182,7 @@ BOOL_T = [
     ("band_ss", "b", "{b} & {b}"), ("band_sc", "b", "{b} & {B}"), ("band_cs", "b", "{B} & {b}"),
     ("bor_ss", "b", "{b} | {b}"), ("bor_sc", "b", "{b} | {B}"), ("bor_cs", "b", "{B} | {b}"),
     ("bxor_ss", "b", "{b} ^ {b}"), ("bxor_sc", "b", "{b} ^ {B}"), ("bxor_cs", "b", "{B} ^ {b}"),
-    ("bnot", "b", "~{b}"),
+    ("bnot", "b", "~{b}"), ("bpos", "b", "+{b}"), ("babs", "i", "abs({b})"), ("bifelse", "i", "{b}.if_else({i}, {K})"),
     ("badd", "i", "{b} + {b}"), ("badd_i", "i", "{b} + {i}"), ("bsub", "i", "{b} - {i}"), ("brsub", "i", "{K} - {b}"),
     ("bmul", "i", "{b} * {i}"), ("bmul_b", "i", "{b} * {b}"), ("bneg", "i", "-{b}"),
     ("beq", "b", "{b} == {b}"), ("bne", "b", "{b} != {b}"), ("blt", "b", "{b} < {b}"), ("bge", "b", "{b} >= {B}"),
